@@ -37,7 +37,7 @@ def evolve(rnd, g, ir, compatible_only):
     unions = [n for _, _, n in pos if n["k"] == "union"]
     named = [n for _, _, n in pos if n["k"] in ("record", "enum", "fixed")]
     steps = ["reorder", "add_default", "drop_field", "rename_alias", "promote", "widen_union", "wrap_union", "enum_add", "enum_remove_default",
-             "rename_type_alias", "change_ns", "field_alias_swap", "union_reorder"]
+             "rename_type_alias", "change_ns", "field_alias_swap", "union_reorder", "hoist_def", "hoist_def"]
     if not compatible_only:
         steps += ["add_nodefault", "demote", "enum_remove", "fixed_size", "rename_field", "narrow_union", "rename_type", "kind_change"] * 1
     rnd.shuffle(steps)
@@ -155,6 +155,32 @@ def evolve(rnd, g, ir, compatible_only):
             h[k] = {"k": "array", "items": {"k": "prim", "name": n["name"]}}
             if isinstance(h, dict) and "hasdef" in h:
                 h["hasdef"] = False
+            return ir, st
+        elif st == "hoist_def" and ir["k"] == "record":
+            # the reader defines a named type in a new optional field placed first and refers to it by name where the writer defines it
+            # inline; the definition evolves on the way (so resolving against the writer's own definition gives a different value)
+            cands = [(h, k, n) for h, k, n in pos if n["k"] in ("enum", "record") and h is not None and n is not ir]
+            if not cands:
+                continue
+            h, k, n = rnd.choice(cands)
+            if n["k"] == "enum":
+                if len(n["syms"]) >= 2 and rnd.random() < 0.7:
+                    gone = rnd.choice(n["syms"])
+                    n["syms"] = [s for s in n["syms"] if s != gone]
+                    n["hasdef"] = True
+                    n["default"] = n["syms"][-1]
+                else:
+                    n["syms"] = n["syms"] + ["HOISTED"]
+            else:
+                n["fields"].insert(rnd.randint(0, len(n["fields"])),
+                                   {"name": "hoisted_%d" % rnd.randint(0, 99), "type": {"k": "prim", "name": "long"}, "hasdef": True,
+                                    "default": rnd.choice([0, -5, 2 ** 33]), "aliases": []})
+            h[k] = {"k": "ref", "full": n["full"]}
+            f = {"name": "hoist_%d" % rnd.randint(0, 999), "type": {"k": "union", "br": [{"k": "prim", "name": "null"}, n]}, "hasdef": True,
+                 "default": None, "aliases": []}
+            ir["fields"].insert(0, f)
+            if not normalize_defs(ir):
+                return ir, None
             return ir, st
         elif st == "field_alias_swap":
             continue
